@@ -39,7 +39,7 @@ import (
 // them quickly; all others use the long net timeout so that machine load can
 // never fire it by accident.
 const (
-	shortPlay = 500 * time.Millisecond // play-phase timeout when the camera goes quiet at the end (harness steps happen inside it)
+	shortPlay = 800 * time.Millisecond // play-phase timeout when the camera goes quiet at the end (harness steps happen inside it)
 	shortNet  = 300 * time.Millisecond
 	longNet   = 20 * time.Second
 	heartbeat = 40 * time.Millisecond
@@ -445,6 +445,12 @@ func runScenario(sc *scenario, rq requester) *result {
 	}
 	playTimeout := longNet
 	if sc.playMayStall() {
+		playTimeout = shortPlay
+	}
+	switch sc.Steps[fakecam.Play].Kind {
+	case fakecam.Silence, fakecam.BadHeaders, fakecam.BadStatusLine:
+		// the switch happens when PLAY arrives at the camera, which may be before the
+		// client has armed the deadline for the PLAY answer: that answer may never come
 		playTimeout = shortPlay
 	}
 	base := takeBaseline()
